@@ -9,7 +9,8 @@ import WuffsVerif.Model.CNames
           | T:<pub|pri>:<name>:<classy|plain>:<iface,iface|-> | F:<pub|pri>:<recv|->:<name>:<pure|impure|coro>:<choosy|->
   undefs <sym>*                      -> ok | external:<sym>
   purecall <method> <effect>         -> unchanged (pure) | may-change
-  tcheck (M <pure|impure> <stmt> <expr>)*  -> ok | reject-parse | reject-check   (prefix notation, see below)
+  tcheck (M <pure|impure> <stmt> <expr>)*  -> ok | reject-parse | reject-check   (prefix notation, see below;
+                                        slice refs: sa i | sl v | sf f | pal | ss f <none|some expr> <none|some expr>)
   classify <name>                    -> class
 -/
 open WuffsVerif WuffsVerif.Line
@@ -50,13 +51,6 @@ open WuffsVerif.Effects
 def eff? : String → Option Eff
   | "pure" => some .pure | "impure" => some .impure | _ => none
 
-def parseSRef : List String → Option (SRef × List String)
-  | "sa" :: i :: r => i.toNat?.map (fun n => (.arg n, r))
-  | "sl" :: v :: r => v.toNat?.map (fun n => (.loc n, r))
-  | "sf" :: f :: r => f.toNat?.map (fun n => (.fld n, r))
-  | "pal" :: r => some (.pal, r)
-  | _ => none
-
 partial def parseExpr : List String → Option (Expr × List String)
   | "lit" :: n :: r => n.toNat?.map (fun k => (.lit k, r))
   | "loc" :: v :: r => v.toNat?.map (fun k => (.loc k, r))
@@ -71,6 +65,23 @@ partial def parseExpr : List String → Option (Expr × List String)
       let e ← eff? mk; let k ← m.toNat?
       let (a, r1) ← parseExpr r
       pure (.call e k a, r1)
+  | _ => none
+
+def parseOptExpr : List String → Option (Option Expr × List String)
+  | "none" :: r => some (none, r)
+  | "some" :: r => (parseExpr r).map (fun (e, r1) => (some e, r1))
+  | _ => none
+
+def parseSRef : List String → Option (SRef × List String)
+  | "sa" :: i :: r => i.toNat?.map (fun n => (.arg n, r))
+  | "sl" :: v :: r => v.toNat?.map (fun n => (.loc n, r))
+  | "sf" :: f :: r => f.toNat?.map (fun n => (.fld n, r))
+  | "pal" :: r => some (.pal, r)
+  | "ss" :: f :: r => do
+      let k ← f.toNat?
+      let (lo, r1) ← parseOptExpr r
+      let (hi, r2) ← parseOptExpr r1
+      pure (.sub k lo hi, r2)
   | _ => none
 
 partial def parseStmt : List String → Option (Stmt × List String)
